@@ -157,7 +157,7 @@ def crlHandler (enabled : Bool) (g : G) (pem : Bool) : Resp :=
 /-! ## configuration plumbing of the CRL section (durations in nanoseconds, as `time.Duration`)
 
   /repo/authority/config/config.go `Config.Init` (enabled and no cacheDuration ⇒ 24 h), `CRLConfig.Validate`
-  (negative durations refused; renewPeriod > cacheDuration refused when both are set), /repo/authority/authority.go `init`
+  (negative durations refused; renewPeriod > cacheDuration refused when both are set; since 057148c also an enabled section whose cache duration is positive and whose ticker would be 0), /repo/authority/authority.go `init`
   (cacheDuration nil or ≤ 0 ⇒ 24 h), `CRLConfig.TickerDuration` (renewPeriod when > 0, else (cacheDuration / 3) * 2 in
   integer nanoseconds; 0 when disabled). `pipeline` is what a CA started from a ca.json goes through, in that order. -/
 
@@ -172,17 +172,6 @@ structure CRLCfg where
 def CRLCfg.init (c : CRLCfg) : CRLCfg :=
   if c.enabled && c.cache.isNone then { c with cache := some dayNs } else c
 
-def CRLCfg.valid (c : CRLCfg) : Bool :=
-  (match c.cache with | some d => decide (0 ≤ d) | none => true) &&
-  (match c.renew with | some r => decide (0 ≤ r) | none => true) &&
-  (match c.renew, c.cache with | some r, some d => decide (r ≤ d) | _, _ => true)
-
-def CRLCfg.effective (c : CRLCfg) : CRLCfg :=
-  if !c.enabled then c else
-  match c.cache with
-  | none => { c with cache := some dayNs }
-  | some d => if d ≤ 0 then { c with cache := some dayNs } else c
-
 /-- `TickerDuration` on a configuration whose cache duration is set -/
 def CRLCfg.ticker (c : CRLCfg) : Int :=
   if !c.enabled then 0 else
@@ -190,9 +179,31 @@ def CRLCfg.ticker (c : CRLCfg) : Int :=
   | some r => if 0 < r then r else (c.cache.getD 0 / 3) * 2
   | none => (c.cache.getD 0 / 3) * 2
 
+/-- `Validate` before 057148c -/
+def CRLCfg.validOld (c : CRLCfg) : Bool :=
+  (match c.cache with | some d => decide (0 ≤ d) | none => true) &&
+  (match c.renew with | some r => decide (0 ≤ r) | none => true) &&
+  (match c.renew, c.cache with | some r, some d => decide (r ≤ d) | _, _ => true)
+
+/-- `Validate` since 057148c: an enabled section with a positive cache duration from which no generator period can be
+    derived (1 or 2 ns without a renew period) is refused as well -/
+def CRLCfg.valid (c : CRLCfg) : Bool :=
+  c.validOld &&
+  !(c.enabled && (match c.cache with | some d => decide (0 < d) && decide (c.ticker ≤ 0) | none => false))
+
+def CRLCfg.effective (c : CRLCfg) : CRLCfg :=
+  if !c.enabled then c else
+  match c.cache with
+  | none => { c with cache := some dayNs }
+  | some d => if d ≤ 0 then { c with cache := some dayNs } else c
+
 /-- (cache duration, ticker period) of a started CA; `none` = the configuration is refused -/
 def pipeline (c : CRLCfg) : Option (Int × Int) :=
   if !c.init.valid then none else some ((c.init.effective.cache.getD 0), c.init.effective.ticker)
+
+/-- the same before 057148c (D61) -/
+def pipelineOld (c : CRLCfg) : Option (Int × Int) :=
+  if !c.init.validOld then none else some ((c.init.effective.cache.getD 0), c.init.effective.ticker)
 
 /-! ## reload: a new authority on the same database, the old one closed for reload
 
